@@ -1,1 +1,284 @@
-/-! Property theorems for C04 (stub: none yet). -/
+import TxdbusModel.Proofs.Proto.Handoff
+/-!
+# C04 - message framing is independent of how the byte stream is split into reads
+
+Code model: `Txdbus.Proto.step` / `run` (Proto/Framing.lean) = `BasicDBusProtocol.dataReceived`.
+Spec: `Spec.frames` (Proto/FramesSpec.lean) = cut the stream at the lengths announced by the fixed
+headers.  The authenticator is an arbitrary parameter `A` (any state type, any function).
+
+Definitions used in the statements (Proofs/Proto/Handoff.lean): `Framed s` - the invariant of the
+binary branch between two reads (nothing cached and fewer than 16 bytes buffered, or the cached length
+is the announced length of the incomplete message at the front of the buffer); `Ready s` - a client,
+or a server that has seen its NUL byte; `authRun A a hs = some a1` - the authenticator answers `cont`
+to every line of `hs`, ending in state `a1`.
+
+Theorems (for ALL states satisfying the stated invariant, ALL lists of reads of any lengths - empty
+reads included -, ALL byte contents):
+
+* `binary_partition_independent`  running the reads delivers exactly `frames (buffer ++ concatenation)`,
+  each once, in order, and leaves its rest buffered (plus: two partitions of one stream give the same).
+* `frames_of_messages`            the concatenation of well-formed messages (either byte order, mixed)
+  is cut into exactly these messages.
+* `line_partition_independent`    in every state (line mode or binary mode) the final state, the lines
+  handed to the authenticator and the messages delivered depend only on the concatenation of the
+  reads - including the behaviour at the 16 KiB limit; `loseConnection` may be called more than once.
+* `handoff`                       handshake ++ arbitrary bytes, cut anywhere: the authenticator gets the
+  handshake lines, the messages delivered are `frames rest`.
+* `loop_bounded`                  one read delivers at most (buffered + read bytes) / 16 messages and
+  conserves every byte (the loop of the model is a well-founded recursion on the buffer length).
+* witnesses of the two repaired defects on models of the old code.
+-/
+namespace Txdbus.Proto
+open Txdbus.Gen.ProtoConst
+
+variable {α : Type}
+
+/-- **C04.1**  For every list of reads (any lengths, empty reads included) delivered to a protocol
+in binary mode: the effects are exactly the deliveries of `(frames (buffer ++ concatenation)).1`, in
+order, each once; the rest stays buffered; the invariant holds again. -/
+theorem binary_partition_independent (A : Auth α) (s : St α) (reads : List Bytes)
+    (ha : s.authenticated = true) (hf : Framed s) :
+    (run A s reads).2 = (Spec.frames (s.buffer ++ reads.flatten)).1.map Effect.msg ∧
+    (run A s reads).1.buffer = (Spec.frames (s.buffer ++ reads.flatten)).2 ∧
+    Framed (run A s reads).1 ∧ (run A s reads).1.authenticated = true := by
+  cases reads with
+  | nil =>
+    have hn := framed_noFrame s hf
+    simp only [run, List.flatten_nil, List.append_nil]
+    rw [frames_unfold, if_neg hn]
+    exact ⟨rfl, rfl, hf, ha⟩
+  | cons d ds =>
+    rw [run_flatten_binary A s d ds ha]
+    have := binStep_frames s (d :: ds).flatten hf
+    exact ⟨this.1, this.2.1, this.2.2, by rw [binStep_auth]; exact ha⟩
+
+/-- Corollary in the words of the property: two ways of cutting one stream into reads deliver the same
+messages and leave the same bytes buffered. -/
+theorem binary_two_partitions (A : Auth α) (s : St α) (rs rs' : List Bytes)
+    (ha : s.authenticated = true) (hf : Framed s) (h : rs.flatten = rs'.flatten) :
+    (run A s rs).2 = (run A s rs').2 ∧ (run A s rs).1.buffer = (run A s rs').1.buffer := by
+  have a := binary_partition_independent A s rs ha hf
+  have b := binary_partition_independent A s rs' ha hf
+  rw [h] at a
+  exact ⟨a.1.trans b.1.symm, a.2.1.trans b.2.1.symm⟩
+
+/-- **C04.2**  The concatenation of well-formed messages - the length fields of the fixed header agree
+with the total length; either byte order, freely mixed - is cut into exactly these messages. -/
+theorem frames_of_messages (ms : List Bytes) (h : ∀ m ∈ ms, Spec.WellFormed m) :
+    Spec.frames ms.flatten = (ms, []) := by
+  have := frames_flatten_wellFormed ms h []
+  have hnil : Spec.frames [] = ([], []) := by
+    rw [frames_unfold, if_neg (by intro hf; exact absurd hf.1 (by decide))]
+  simpa [hnil] using this
+
+/-- **C04.3**  In every state that accepts arbitrary reads (`Ready`: a client, or a server that has
+seen its NUL byte; line mode or binary mode, any buffer content, any authenticator): two non-empty
+lists of reads with the same concatenation end in the same state, hand the same lines to the
+authenticator and deliver the same messages.  This includes lines at and over the 16 KiB limit. -/
+theorem line_partition_independent (A : Auth α) (s : St α) (rs rs' : List Bytes) (hr : Ready s)
+    (hne : rs ≠ []) (hne' : rs' ≠ []) (h : rs.flatten = rs'.flatten) :
+    (run A s rs).1 = (run A s rs').1 ∧
+    linesOf (run A s rs).2 = linesOf (run A s rs').2 ∧
+    msgsOf (run A s rs).2 = msgsOf (run A s rs').2 := by
+  cases rs with
+  | nil => exact absurd rfl hne
+  | cons d ds =>
+    cases rs' with
+    | nil => exact absurd rfl hne'
+    | cons d' ds' =>
+      have a := run_flatten A s d ds hr
+      have b := run_flatten A s d' ds' hr
+      rw [h] at a
+      refine ⟨a.1.trans b.1.symm, ?_, ?_⟩
+      · rw [← linesOf_noLose, a.2, ← b.2, linesOf_noLose]
+      · rw [← msgsOf_noLose, a.2, ← b.2, msgsOf_noLose]
+
+/-- C04.3 for a freshly connected server: the stream starts with the NUL byte, no read before it is
+empty (the code indexes `data[0]`). -/
+theorem line_partition_independent_server (A : Auth α) (s : St α) (d d' : Bytes) (ds ds' : List Bytes)
+    (hc : s.client = false) (hfb : s.firstByte = true) (ha : s.authenticated = false)
+    (h : (d :: ds).flatten = (d' :: ds').flatten) :
+    (run A s ((0 :: d) :: ds)).1 = (run A s ((0 :: d') :: ds')).1 ∧
+    linesOf (run A s ((0 :: d) :: ds)).2 = linesOf (run A s ((0 :: d') :: ds')).2 ∧
+    msgsOf (run A s ((0 :: d) :: ds)).2 = msgsOf (run A s ((0 :: d') :: ds')).2 := by
+  have e1 : run A s ((0 :: d) :: ds) = run A { s with firstByte := false } (d :: ds) := by
+    rw [run_cons, run_cons, (server_first_read A s d hc hfb ha).1]
+  have e2 : run A s ((0 :: d') :: ds') = run A { s with firstByte := false } (d' :: ds') := by
+    rw [run_cons, run_cons, (server_first_read A s d' hc hfb ha).1]
+  rw [e1, e2]
+  exact line_partition_independent A _ _ _ (Or.inr rfl) (by simp) (by simp) h
+
+/-- **C04.4**  The stream is a handshake - lines without CR LF, none over the limit, each followed by
+CR LF, the authenticator reporting success after the last one and not before - followed by arbitrary
+bytes `rest`.  However it is cut into reads (for instance with the final handshake line and message
+bytes in one read): the authenticator receives exactly the handshake lines, the messages delivered are
+`frames rest`, the rest of `rest` stays buffered, the protocol is in binary mode.
+No assumption on the content of `rest` (it may contain CR LF anywhere). -/
+theorem handoff (A : Auth α) (s : St α) (hs : List Bytes) (last rest : Bytes) (reads : List Bytes) (a1 a' : α)
+    (hr : Ready s) (ha : s.authenticated = false) (hbuf : s.buffer = []) (hcl : s.closed = false)
+    (hnext : s.nextMsgLen = 0)
+    (hlines : ∀ l ∈ hs ++ [last], Spec.hasCRLF l = false ∧ l.length ≤ maxAuthLength)
+    (hrun : authRun A s.auth hs = some a1) (hlast : A.handle a1 last = (a', .success))
+    (hne : reads ≠ []) (hreads : reads.flatten = Spec.unlines (hs ++ [last]) ++ rest) :
+    linesOf (run A s reads).2 = hs ++ [last] ∧
+    msgsOf (run A s reads).2 = (Spec.frames rest).1 ∧
+    (run A s reads).1.buffer = (Spec.frames rest).2 ∧
+    (run A s reads).1.authenticated = true ∧
+    (run A s reads).1.closed = false := by
+  cases reads with
+  | nil => exact absurd rfl hne
+  | cons d ds =>
+    have hrf := run_flatten A s d ds hr
+    rw [hreads] at hrf
+    -- the single read
+    have hsp := split_unlines (hs ++ [last]) rest (fun l hl => (hlines l hl).1)
+    have hone : step A s (Spec.unlines (hs ++ [last]) ++ rest) =
+        lineFinish s (splitCRLF rest).2
+          ⟨.success, a', false, (hs ++ [last]).map Effect.line, (splitCRLF rest).1⟩ := by
+      rw [step_line A s _ ha hr, lineBody_eq, hbuf, List.nil_append, hsp, hcl,
+        lineLoop_handshake A s.auth a1 a' hs last _ (fun l hl => (hlines l hl).2) hrun hlast]
+    rw [lineFinish_success _ _ _ rfl] at hone
+    simp only [join_split] at hone
+    have hfr : Framed (handoffState s ⟨.success, a', false, (hs ++ [last]).map Effect.line, (splitCRLF rest).1⟩) := by
+      refine Or.inl ⟨hnext, ?_⟩
+      show ([] : Bytes).length < 16
+      decide
+    have hb := binStep_frames _ rest hfr
+    simp only [handoffState, List.nil_append] at hb
+    simp only [handoffState] at hone
+    rw [hone] at hrf
+    refine ⟨?_, ?_, ?_, ?_, ?_⟩
+    · rw [← linesOf_noLose, hrf.2, linesOf_noLose]
+      show linesOf (_ ++ _) = _
+      rw [hb.1]
+      exact (linesOf_lines_msgs _ _).1
+    · rw [← msgsOf_noLose, hrf.2, msgsOf_noLose]
+      show msgsOf (_ ++ _) = _
+      rw [hb.1]
+      exact (linesOf_lines_msgs _ _).2
+    · rw [hrf.1]; exact hb.2.1
+    · rw [hrf.1]; rfl
+    · rw [hrf.1]; rfl
+
+/-- C04.4 for a freshly connected server (NUL byte first, first read not empty). -/
+theorem handoff_server (A : Auth α) (s : St α) (hs : List Bytes) (last rest d : Bytes) (ds : List Bytes)
+    (a1 a' : α)
+    (hc : s.client = false) (hfb : s.firstByte = true)
+    (ha : s.authenticated = false) (hbuf : s.buffer = []) (hcl : s.closed = false)
+    (hnext : s.nextMsgLen = 0)
+    (hlines : ∀ l ∈ hs ++ [last], Spec.hasCRLF l = false ∧ l.length ≤ maxAuthLength)
+    (hrun : authRun A s.auth hs = some a1) (hlast : A.handle a1 last = (a', .success))
+    (hreads : (d :: ds).flatten = Spec.unlines (hs ++ [last]) ++ rest) :
+    linesOf (run A s ((0 :: d) :: ds)).2 = hs ++ [last] ∧
+    msgsOf (run A s ((0 :: d) :: ds)).2 = (Spec.frames rest).1 ∧
+    (run A s ((0 :: d) :: ds)).1.buffer = (Spec.frames rest).2 ∧
+    (run A s ((0 :: d) :: ds)).1.authenticated = true ∧
+    (run A s ((0 :: d) :: ds)).1.closed = false := by
+  have e1 : run A s ((0 :: d) :: ds) = run A { s with firstByte := false } (d :: ds) := by
+    rw [run_cons, run_cons, (server_first_read A s d hc hfb ha).1]
+  rw [e1]
+  exact handoff A { s with firstByte := false } hs last rest (d :: ds) a1 a' (Or.inr rfl) ha hbuf hcl hnext
+    hlines hrun hlast (by simp) hreads
+
+/-- **C04.5**  The binary branch is a loop (well-founded recursion on the buffer length in the model:
+every delivered message removes its own length, at least 16 bytes).  One read delivers at most
+(buffered + read bytes) / 16 messages, every delivered message has at least 16 bytes, and no byte is
+lost, duplicated or reordered: the delivered messages followed by the new buffer are the old buffer
+followed by the read. -/
+theorem loop_bounded (A : Auth α) (s : St α) (d : Bytes) (ha : s.authenticated = true) (hf : Framed s) :
+    (msgsOf (step A s d).2).length * 16 ≤ s.buffer.length + d.length ∧
+    (∀ m ∈ msgsOf (step A s d).2, 16 ≤ m.length) ∧
+    (msgsOf (step A s d).2).flatten ++ (step A s d).1.buffer = s.buffer ++ d := by
+  rw [step_auth A s d ha]
+  have hb := binStep_frames s d hf
+  have hm : msgsOf (binStep s d).2 = (Spec.frames (s.buffer ++ d)).1 := by
+    rw [hb.1]
+    have := (linesOf_lines_msgs [] (Spec.frames (s.buffer ++ d)).1).2
+    simpa using this
+  rw [hm, hb.2.1]
+  have hlen := frames_len (s.buffer ++ d)
+  have hcons := frames_conserve (s.buffer ++ d)
+  refine ⟨?_, hlen, hcons⟩
+  -- count * 16 ≤ total length
+  have key : ∀ (ms : List Bytes), (∀ m ∈ ms, 16 ≤ m.length) → ms.length * 16 ≤ ms.flatten.length := by
+    intro ms
+    induction ms with
+    | nil => intro _; simp
+    | cons m t ih =>
+      intro h
+      have h1 := h m (by simp)
+      have h2 := ih (fun x hx => h x (by simp [hx]))
+      simp only [List.length_cons, List.flatten_cons, List.length_append]
+      omega
+  have h1 := key _ hlen
+  have h2 : ((Spec.frames (s.buffer ++ d)).1.flatten ++ (Spec.frames (s.buffer ++ d)).2).length
+      = (s.buffer ++ d).length := by rw [hcons]
+  simp only [List.length_append] at h2
+  omega
+
+/-! ## Witnesses: the models of the code before the repairs violate the property -/
+
+/-- A 16-byte message (little endian, no header fields, no body). -/
+def tinyMsg : Bytes := [108, 2, 0, 1, 0, 0, 0, 0, 1, 0, 0, 0, 0, 0, 0, 0]
+
+/-- Before c1e0b2e: three messages in one read nest three calls of `dataReceived` - one Python frame
+per coalesced message (F2; the harness replays 1,500 messages: RecursionError). -/
+theorem prefix_recursion_depth_grows :
+    (binRecOld 10 (tinyMsg ++ tinyMsg ++ tinyMsg) 0 false 1).map (fun r => (r.2.1.length, r.2.2)) = some (3, 3) := by
+  decide
+
+/-- `BEGIN` -/
+def beginLine : Bytes := [66, 69, 71, 73, 78]
+
+/-- A 24-byte message whose serial is 2573 = 0x0A0D: its bytes contain CR LF. -/
+def crlfMsg : Bytes :=
+  [108, 2, 0, 1, 0, 0, 0, 0, 13, 10, 0, 0, 8, 0, 0, 0, 5, 1, 117, 0, 1, 0, 0, 0]
+
+/-- The authenticator that reports success on its first line. -/
+def okAuth : Auth Unit := ⟨fun _ _ => ((), .success)⟩
+
+/-- Before 4e9e31b: `BEGIN\r\n` and a message containing 0d 0a in one read - the message bytes are cut
+at the CR LF, the fragment goes to the discarded authenticator (AttributeError), no message is
+delivered (F3). -/
+theorem prefix_handoff_loses_message :
+    lineBodyOld okAuth (St.init true ()) (beginLine ++ [13, 10] ++ crlfMsg) = [.line beginLine, .crash] := by
+  decide
+
+/-! ## The hypotheses are satisfiable -/
+
+example : Framed (α := Unit) { St.init true () with authenticated := true } := Or.inl ⟨rfl, by decide⟩
+
+example : Spec.WellFormed tinyMsg ∧ Spec.WellFormed crlfMsg := by decide
+
+/-- a big-endian message (method return, reply serial 1, body `u` 7) -/
+example : Spec.WellFormed
+    [66, 2, 0, 1, 0, 0, 0, 4, 0, 0, 0, 9, 0, 0, 0, 15, 5, 1, 117, 0, 0, 0, 0, 1, 8, 1, 103, 0, 1, 117, 0, 0,
+     0, 0, 0, 7] := by decide
+
+/-- the repaired code on the F3 input, cut between CR and LF of the final handshake line -/
+example : msgsOf (run okAuth (St.init true ()) [beginLine ++ [13], 10 :: crlfMsg]).2 = (Spec.frames crlfMsg).1 :=
+  (handoff okAuth (St.init true ()) [] beginLine crlfMsg _ () () (Or.inl rfl) rfl rfl rfl rfl
+    (by decide) rfl rfl (by simp) (by decide)).2.1
+
+end Txdbus.Proto
+
+open Txdbus.Proto in
+#print axioms binary_partition_independent
+open Txdbus.Proto in
+#print axioms binary_two_partitions
+open Txdbus.Proto in
+#print axioms frames_of_messages
+open Txdbus.Proto in
+#print axioms line_partition_independent
+open Txdbus.Proto in
+#print axioms line_partition_independent_server
+open Txdbus.Proto in
+#print axioms handoff
+open Txdbus.Proto in
+#print axioms handoff_server
+open Txdbus.Proto in
+#print axioms loop_bounded
+open Txdbus.Proto in
+#print axioms prefix_recursion_depth_grows
+open Txdbus.Proto in
+#print axioms prefix_handoff_loses_message
